@@ -88,10 +88,9 @@ def gen_op(rng, w, chosen_price_stream):
         return op, cls
     if r < 0.62:
         p = m.positions[k]
-        caps = [(None, "all"), (p.pending_amount0 / 2 if p.pending_amount0 else Decimal("0.001"), "below"), (p.pending_amount0 * 3 + 1, "above"), (Decimal(-1), "negative")]
-        c0, c1 = rng.choice(caps), rng.choice(caps)
-        return {"op": "collect", "lower": k.lower_tick, "upper": k.upper_tick, "max0": c0[0], "max1": c1[0], "remove_dry": True,
-                "to_user": rng.random() < 0.9}, f"{c0[1]}/{c1[1]}"
+        c0, c1, ccls = U.collect_caps(rng, p, negative=True)
+        return {"op": "collect", "lower": k.lower_tick, "upper": k.upper_tick, "max0": c0, "max1": c1, "remove_dry": True,
+                "to_user": rng.random() < 0.9}, ccls
     if r < 0.72:
         a, cls = amount_class(rng, bb)
         return {"op": "sell", "amount": a, "price": None}, cls
